@@ -460,3 +460,304 @@ theorem c40Loop_spec {text : Bool} {syms : List SymbolInfo} {la : LookAhead} {c0
           exact ih c2 _ c1 buf1 hB2 hm2 hn2 h
 
 end Gzx.DMHighLevel
+
+namespace Gzx.DMHighLevel
+
+theorem writeTriplets_exact (l : List Nat) (k : Nat) (h : l.length = 3 * k) :
+    (writeTriplets l).2 = [] ∧ (writeTriplets l).1.length = 2 * k := by
+  obtain ⟨k', h1, h2, h3, _, _, h6⟩ := writeTriplets_split l.length l (Nat.le_refl _)
+  have : k' = k := by omega
+  subst this
+  refine ⟨?_, h6⟩
+  rw [h3]; apply List.drop_eq_nil_of_le; omega
+
+theorem writeTriplets_take (l : List Nat) (k : Nat) (h1 : 3 * k ≤ l.length) (h2 : l.length < 3 * k + 3) :
+    (writeTriplets l).1 = (writeTriplets (l.take (3 * k))).1 ∧ (writeTriplets l).1.length = 2 * k := by
+  obtain ⟨k', g1, g2, _, g4, _, g6⟩ := writeTriplets_split l.length l (Nat.le_refl _)
+  have : k' = k := by omega
+  subst this
+  exact ⟨g4, g6⟩
+
+theorem charsOf_text {c0 c : Ctx} {a : Acc} (hm : c.msg = c0.msg) (hlo : c0.pos ≤ c.pos)
+    (ht : a.rev.reverse = c0.msg.take c0.pos) : a.rev.reverse ++ charsOf c0 c = c.msg.take c.pos := by
+  rw [ht, hm]; unfold charsOf
+  rw [take_add_drop_take]; congr 1; omega
+
+/-- `c40HandleEOD` after the loop: every reachable combination of rest / free space / more characters ends in
+    the invariant or a tail state -/
+theorem c40HandleEOD_post {text : Bool} {syms : List SymbolInfo} {la : LookAhead} {c0 c c' : Ctx} {a : Acc}
+    {buf : List Nat} {av : Nat}
+    (hbytes : ∀ x ∈ c0.msg, x < 256)
+    (hL : LatchedM refTables (if text then TEXT else C40) (if text then 239 else 230) la c0 a)
+    (hB : CBuf text c0 c buf) (hav : c40Available syms c buf = .ok (c, av))
+    (h1 : ¬ (buf.length % 3 = 1 ∧ (lastSz text c0 c > 2 ∨ av ≠ 1)))
+    (h2 : c.hasMore = true ∨ ¬ (buf.length % 3 = 2 ∧ av ≠ 2))
+    (h : c40HandleEOD syms c buf = .ok c') :
+    ∃ a', a'.trailer = a.trailer ∧ c'.msg = c0.msg ∧ c'.cfg = c0.cfg ∧ c'.skipAtEnd = c0.skipAtEnd ∧
+      c0.pos ≤ c'.pos ∧ c'.pos ≤ c'.total ∧ c'.newEnc = some ASCII ∧
+      (Inv refTables c' a' ∨ ∃ k, k ≤ 1 ∧ Tail refTables c' a' k) := by
+  obtain ⟨cw0, hcw, hdec, htext, hpend, _⟩ := hL
+  obtain ⟨_, _, _, _, _, _, s, hs, hcap, havs, _⟩ := c40Available_spec hav
+  have hcb : ∀ x ∈ charsOf c0 c, x < 256 := by
+    intro x hx; unfold charsOf at hx
+    exact hbytes x (List.mem_of_mem_drop (List.mem_of_mem_take hx))
+  have htx := charsOf_text hB.msg hB.lo htext
+  have htr : ∀ cs : List Nat, ((a.pushAll cs).endSeg).trailer = a.trailer := by
+    intro cs; rw [Acc.endSeg_trailer, pushAll_trailer]
+  unfold c40HandleEOD at h
+  rw [hav] at h
+  simp only [bind, Except.bind] at h
+  have hw : ∀ (cc : Ctx) (xs : List Nat), (cc.writeAll xs).hasMore = cc.hasMore := fun _ _ => rfl
+  have htot : ∀ cc : Ctx, cc.msg = c.msg → cc.skipAtEnd = c.skipAtEnd → cc.total = c.total := by
+    intro cc e1 e2; simp [Ctx.total, e1, e2]
+  by_cases hr2 : buf.length % 3 = 2
+  · -- two values left: pad with a shift-1 value
+    simp only [hr2, if_true, hw] at h
+    obtain ⟨k, hk⟩ : ∃ k, (buf ++ [0]).length = 3 * k := ⟨(buf.length + 1) / 3, by simp; omega⟩
+    obtain ⟨st, es, hrun, hem, hv40⟩ := chars_run_shift text (charsOf c0 c) hcb 0 (by decide)
+    rw [← hB.buf] at hrun hv40
+    obtain ⟨hw2, hwl⟩ := writeTriplets_exact (buf ++ [0]) k hk
+    by_cases hm : c.hasMore = true
+    · simp only [hm, if_true, Except.ok.injEq] at h
+      subst h
+      refine ⟨(a.pushAll (charsOf c0 c)).endSeg, htr _, hB.msg, hB.cfg, hB.skip, hB.lo, ?_, rfl, Or.inl ⟨?_, ?_, rfl⟩⟩
+      · exact hB.hi
+      · have := decodesTo_cvals text hdec k (buf ++ [0]) hk hv40 st es hrun
+        rw [hem] at this
+        simpa [Ctx.signal, Ctx.write, Ctx.writeAll, hB.cw, hcw, List.append_assoc] using this
+      · simp only [Ctx.signal, Ctx.write, Ctx.writeAll, Acc.endSeg_rev, pushAll_rev]; exact htx
+    · simp only [hm, Bool.false_eq_true, if_false, Except.ok.injEq] at h
+      subst h
+      have hav2 : av = 2 := by
+        rcases h2 with e | e
+        · exact absurd e hm
+        · by_cases hx : av = 2
+          · exact hx
+          · exact absurd ⟨hr2, hx⟩ e
+      have hmf : c.hasMore = false := by simpa using hm
+      refine ⟨(a.pushAll (charsOf c0 c)).endSeg, htr _, hB.msg, hB.cfg, hB.skip, hB.lo, ?_, rfl,
+        Or.inr ⟨0, by omega, ?_, ?_, rfl, ⟨s, hs, ?_⟩, ?_⟩⟩
+      · exact hB.hi
+      · have := (decK_cvals_open text hdec k (buf ++ [0]) hk hv40 st es hrun).mono (Nat.zero_le 1)
+        rw [hem] at this
+        simpa [Ctx.signal, Ctx.writeAll, hB.cw, hcw, List.append_assoc] using this
+      · simp only [Ctx.signal, Ctx.writeAll, Acc.endSeg_rev, pushAll_rev]; exact htx
+      · simp only [Ctx.signal, Ctx.writeAll, Ctx.count, List.length_append, hwl]
+        simp only [Ctx.count] at havs hcap
+        simp only [List.length_append, List.length_cons, List.length_nil] at hk
+        omega
+      · have hr0 : c.remaining = 0 := by
+          have := (hasMore_false_iff' c).mp hmf
+          simp only [Ctx.remaining]; omega
+        have : ((c.writeAll (writeTriplets (buf ++ [0])).1).signal ASCII).rest = c.rest := rfl
+        rw [this]; simp [Ctx.rest, hr0, asciiNeed]
+  · by_cases hr1 : buf.length % 3 = 1
+    · -- one value left: the last character goes to ASCII encodation
+      have hav1 : av = 1 := by
+        by_cases hx : av = 1
+        · exact hx
+        · exact absurd ⟨hr1, Or.inr hx⟩ h1
+      have hls : lastSz text c0 c ≤ 2 := by
+        by_cases hx : lastSz text c0 c ≤ 2
+        · exact hx
+        · exact absurd ⟨hr1, Or.inl (by omega)⟩ h1
+      simp only [hr1, show ¬ (1 : Nat) = 2 by decide, if_false, hav1, and_self, if_true, hw] at h
+      have hne : buf ≠ [] := by intro e; rw [e] at hr1; simp at hr1
+      have hlt := hB.nonempty hne
+      -- the last character
+      have hlen : c.pos ≤ c.msg.length := by have := hB.hi; simp only [Ctx.total] at this; omega
+      have hget : c.msg[c.pos - 1]? = some c.msg[c.pos - 1] := List.getElem?_eq_getElem (by omega)
+      have hcm : charsOf c0 c = charsOf c0 ({ c with pos := c.pos - 1 } : Ctx) ++ [c.msg[c.pos - 1]] :=
+        charsOf_succ (c0 := c0) (c := ({ c with pos := c.pos - 1 } : Ctx)) hB.msg (by show c0.pos ≤ c.pos - 1; omega)
+          hget c (by show c.pos = c.pos - 1 + 1; omega)
+      generalize hch' : charsOf c0 ({ c with pos := c.pos - 1 } : Ctx) = chars' at hcm
+      have hlc : c.msg[c.pos - 1] < 256 := hcb _ (by rw [hcm]; simp)
+      have hcb' : ∀ x ∈ chars', x < 256 := fun x hx => hcb x (by rw [hcm]; simp [hx])
+      have hlsz : lastSz text c0 c = (cEncodeChar text c.msg[c.pos - 1]).length := by simp [lastSz, hlt, hget]
+      have hbuf : buf = cVals text chars' ++ cEncodeChar text c.msg[c.pos - 1] := by
+        rw [hB.buf, hcm, cVals_append]; simp [cVals]
+      have hsm := smallChar text _ hlc
+      unfold smallCharOK at hsm
+      simp only [Bool.and_eq_true] at hsm
+      have hl128 : c.msg[c.pos - 1] < 128 := by
+        have h1' := of_decide_eq_true hsm.1
+        exact of_decide_eq_true (h1' (decide_eq_true (by omega)))
+      obtain ⟨k, hk⟩ : ∃ k, buf.length = 3 * k + 1 := ⟨buf.length / 3, by omega⟩
+      obtain ⟨hwt, hwl⟩ := writeTriplets_take buf k (by omega) (by omega)
+      -- the first 3k values: whole characters, possibly followed by the shift of the last one
+      have hV : ∃ st es, runVals refTables text ((buf.take (3 * k)).map Int.ofNat) {} = .ok (st, es) ∧
+          (∀ b : Acc, b.emitAll es = b.pushAll chars') ∧ ∀ v ∈ buf.take (3 * k), v < 40 := by
+        have hpos := cEncodeChar_pos text c.msg[c.pos - 1]
+        by_cases hsz : (cEncodeChar text c.msg[c.pos - 1]).length = 1
+        · obtain ⟨es, hr, hem, hv⟩ := chars_run text chars' hcb'
+          have : buf.take (3 * k) = cVals text chars' := by
+            rw [hbuf]; rw [hbuf] at hk
+            simp only [List.length_append] at hk
+            rw [List.take_append_of_le_length (by omega)]
+            apply List.take_of_length_le; omega
+          rw [this]
+          exact ⟨{}, es, hr, hem, hv⟩
+        · have hsz2 : (cEncodeChar text c.msg[c.pos - 1]).length = 2 := by omega
+          match hq : cEncodeChar text c.msg[c.pos - 1], hsz2 with
+          | [sv, xv], _ =>
+            have hs3 : sv < 3 := by have := hsm.2; rw [hq] at this; simpa using this
+            obtain ⟨st, es, hr, hem, hv⟩ := chars_run_shift text chars' hcb' sv hs3
+            have : buf.take (3 * k) = cVals text chars' ++ [sv] := by
+              rw [hbuf, hq]; rw [hbuf, hq] at hk
+              simp only [List.length_append, List.length_cons, List.length_nil] at hk
+              have e : cVals text chars' ++ [sv, xv] = (cVals text chars' ++ [sv]) ++ [xv] := by simp
+              rw [e, List.take_append_of_le_length (by simp; omega)]
+              apply List.take_of_length_le; simp; omega
+            rw [this]
+            exact ⟨st, es, hr, hem, hv⟩
+      obtain ⟨st, es, hrun, hem, hv40⟩ := hV
+      have hlen3 : (buf.take (3 * k)).length = 3 * k := by rw [List.length_take]; omega
+      have htx' : a.rev.reverse ++ chars' = c.msg.take (c.pos - 1) := by
+        have := charsOf_text (c0 := c0) (c := ({ c with pos := c.pos - 1 } : Ctx)) (a := a) hB.msg
+          (by show c0.pos ≤ c.pos - 1; omega) htext
+        rw [hch'] at this; exact this
+      by_cases hm : c.hasMore = true
+      · simp only [hm, if_true] at h
+        have hbk : ((c.writeAll (writeTriplets buf).1).write 254).back 1
+            = .ok { (c.writeAll (writeTriplets buf).1).write 254 with pos := c.pos - 1 } := by
+          simp [Ctx.back, Ctx.write, Ctx.writeAll]; omega
+        rw [hbk] at h
+        simp only [Except.ok.injEq] at h
+        subst h
+        refine ⟨(a.pushAll chars').endSeg, htr _, hB.msg, hB.cfg, hB.skip, by show c0.pos ≤ c.pos - 1; omega, ?_, rfl,
+          Or.inl ⟨?_, ?_, rfl⟩⟩
+        · show c.pos - 1 ≤ c.total; have := hB.hi; omega
+        · have := decodesTo_cvals text hdec k (buf.take (3 * k)) hlen3 hv40 st es hrun
+          rw [hem, ← hwt] at this
+          simpa [Ctx.signal, Ctx.write, Ctx.writeAll, hB.cw, hcw, List.append_assoc] using this
+        · simp only [Ctx.signal, Ctx.write, Ctx.writeAll, Acc.endSeg_rev, pushAll_rev]; exact htx'
+      · simp only [hm, Bool.false_eq_true, if_false] at h
+        have hmf : c.hasMore = false := by simpa using hm
+        have hbk : (c.writeAll (writeTriplets buf).1).back 1
+            = .ok { c.writeAll (writeTriplets buf).1 with pos := c.pos - 1 } := by
+          unfold Ctx.back
+          rw [if_pos (by show 1 ≤ c.pos; omega)]
+          rfl
+        rw [hbk] at h
+        simp only [Except.ok.injEq] at h
+        subst h
+        have hpt : c.pos = c.total := by
+          have := (hasMore_false_iff' c).mp hmf; have := hB.hi; omega
+        refine ⟨(a.pushAll chars').endSeg, htr _, hB.msg, hB.cfg, hB.skip, by show c0.pos ≤ c.pos - 1; omega, ?_, rfl,
+          Or.inr ⟨1, by omega, ?_, ?_, rfl, ⟨s, hs, ?_⟩, ?_⟩⟩
+        · show c.pos - 1 ≤ c.total; omega
+        · have := decK_cvals_open text hdec k (buf.take (3 * k)) hlen3 hv40 st es hrun
+          rw [hem, ← hwt] at this
+          simpa [Ctx.signal, Ctx.writeAll, hB.cw, hcw, List.append_assoc] using this
+        · simp only [Ctx.signal, Ctx.writeAll, Acc.endSeg_rev, pushAll_rev]; exact htx'
+        · simp only [Ctx.signal, Ctx.writeAll, Ctx.count, List.length_append, hwl]
+          simp only [Ctx.count] at havs hcap
+          omega
+        · have hrest : (({ c.writeAll (writeTriplets buf).1 with pos := c.pos - 1 } : Ctx).signal ASCII).rest
+              = [c.msg[c.pos - 1]] := by
+            simp only [Ctx.rest, Ctx.signal, Ctx.writeAll, Ctx.remaining, Ctx.total]
+            rw [drop_eq_cons_of_getElem? hget]
+            have : c.msg.length - c.skipAtEnd - (c.pos - 1) = 1 := by
+              simp only [Ctx.total] at hpt; omega
+            rw [this]; rfl
+          rw [hrest]
+          have : isExtended c.msg[c.pos - 1] = false := by simp [isExtended]; omega
+          simp [asciiNeed, this]
+    · -- complete triplets
+      have hr0 : buf.length % 3 = 0 := by omega
+      simp only [hr0, show ¬ (0 : Nat) = 2 by decide, show ¬ (0 : Nat) = 1 by decide, if_false, and_false,
+        if_true, hw] at h
+      obtain ⟨k, hk⟩ : ∃ k, buf.length = 3 * k := ⟨buf.length / 3, by omega⟩
+      obtain ⟨es, hrun, hem, hv40⟩ := chars_run text (charsOf c0 c) hcb
+      rw [← hB.buf] at hrun hv40
+      obtain ⟨_, hwl⟩ := writeTriplets_exact buf k hk
+      by_cases hcond : av > 0 ∨ c.hasMore = true
+      · simp only [hcond, if_true, Except.ok.injEq] at h
+        subst h
+        refine ⟨(a.pushAll (charsOf c0 c)).endSeg, htr _, hB.msg, hB.cfg, hB.skip, hB.lo, ?_, rfl, Or.inl ⟨?_, ?_, rfl⟩⟩
+        · exact hB.hi
+        · have := decodesTo_cvals text hdec k buf hk hv40 {} es hrun
+          rw [hem] at this
+          simpa [Ctx.signal, Ctx.write, Ctx.writeAll, hB.cw, hcw, List.append_assoc] using this
+        · simp only [Ctx.signal, Ctx.write, Ctx.writeAll, Acc.endSeg_rev, pushAll_rev]; exact htx
+      · simp only [hcond, if_false, Except.ok.injEq] at h
+        subst h
+        simp only [not_or, Nat.not_lt, Nat.le_zero_eq, Bool.not_eq_true] at hcond
+        obtain ⟨hav0, hmf⟩ := hcond
+        refine ⟨(a.pushAll (charsOf c0 c)).endSeg, htr _, hB.msg, hB.cfg, hB.skip, hB.lo, ?_, rfl,
+          Or.inr ⟨0, by omega, ?_, ?_, rfl, ⟨s, hs, ?_⟩, ?_⟩⟩
+        · exact hB.hi
+        · have := (decK_cvals_open text hdec k buf hk hv40 {} es hrun).mono (Nat.zero_le 1)
+          rw [hem] at this
+          simpa [Ctx.signal, Ctx.writeAll, hB.cw, hcw, List.append_assoc] using this
+        · simp only [Ctx.signal, Ctx.writeAll, Acc.endSeg_rev, pushAll_rev]; exact htx
+        · simp only [Ctx.signal, Ctx.writeAll, Ctx.count, List.length_append, hwl]
+          simp only [Ctx.count] at havs hcap
+          omega
+        · have hr0' : c.remaining = 0 := by
+            have := (hasMore_false_iff' c).mp hmf
+            simp only [Ctx.remaining]; omega
+          have : ((c.writeAll (writeTriplets buf).1).signal ASCII).rest = c.rest := rfl
+          rw [this]; simp [Ctx.rest, hr0', asciiNeed]
+
+end Gzx.DMHighLevel
+
+namespace Gzx.DMHighLevel
+
+/-- `dm_encoder_invariant`, C40 / Text: a whole call of the C40 (Text) encoder, started right after the latch,
+    ends with the invariant (unlatch written) or in a tail state (symbol exactly used up, or one codeword left
+    for the last character, which is not an extended one) — for EVERY look-ahead oracle. -/
+theorem c40_step_post {text : Bool} {syms : List SymbolInfo} {la : LookAhead} {c c' : Ctx} {a : Acc}
+    (hbytes : ∀ x ∈ c.msg, x < 256)
+    (hL : LatchedM refTables (if text then TEXT else C40) (if text then 239 else 230) la c a)
+    (hle : c.pos ≤ c.total) (hm : c.hasMore = true) (hnew : c.newEnc = none)
+    (h : c40Encode syms la text c = .ok c') :
+    ∃ a', a'.trailer = a.trailer ∧ c'.msg = c.msg ∧ c'.cfg = c.cfg ∧ c'.skipAtEnd = c.skipAtEnd ∧
+      c.pos ≤ c'.pos ∧ c'.pos ≤ c'.total ∧ c'.newEnc = some ASCII ∧
+      (Inv refTables c' a' ∨ ∃ k, k ≤ 1 ∧ Tail refTables c' a' k) := by
+  have hB0 : CBuf text c c [] := ⟨rfl, rfl, rfl, rfl, Nat.le_refl _, hle, by simp [charsOf, cVals]⟩
+  unfold c40Encode at h
+  cases hl : c40Loop syms la text c.remaining c [] with
+  | error e => rw [hl] at h; simp [bind, Except.bind] at h
+  | ok r =>
+    obtain ⟨c1, buf1⟩ := r
+    rw [hl] at h
+    simp only [bind, Except.bind] at h
+    obtain ⟨hB1, hexit⟩ := c40Loop_spec c.remaining c [] c1 buf1 hB0 hm hnew hl
+    rcases hexit with ⟨hn1, h3, hm1⟩ | ⟨hn1, av, hav, hc1, hc2⟩
+    · -- the look-ahead asked to leave with complete triplets
+      obtain ⟨cw0, hcw, hdec, htext, hpend, _⟩ := hL
+      have hcb : ∀ x ∈ charsOf c c1, x < 256 := by
+        intro x hx; unfold charsOf at hx
+        exact hbytes x (List.mem_of_mem_drop (List.mem_of_mem_take hx))
+      have hBuf : Buffered text c1 a (charsOf c c1) buf1 :=
+        ⟨cw0, by rw [hB1.cw, hcw], hdec, charsOf_text hB1.msg hB1.lo htext, hB1.buf⟩
+      obtain ⟨k, hk⟩ : ∃ k, buf1.length = 3 * k := ⟨buf1.length / 3, by omega⟩
+      obtain ⟨hI, hp, hmsg, hne⟩ := c40HandleEOD_midstream hBuf hcb k hk hm1 h
+      have hcfg : c'.cfg = c.cfg ∧ c'.skipAtEnd = c.skipAtEnd := by
+        -- c40HandleEOD touches neither hints nor skipAtEnd
+        unfold c40HandleEOD at h
+        cases hav : c40Available syms c1 buf1 with
+        | error e => rw [hav] at h; simp [bind, Except.bind] at h
+        | ok r =>
+          obtain ⟨c2, av⟩ := r
+          obtain ⟨_, _, _, a4, a5, _⟩ := c40Available_spec hav
+          rw [hav] at h
+          have hr0 : buf1.length % 3 = 0 := by omega
+          have hm2 : c2.hasMore = true := by
+            obtain ⟨_, a2, a3, _, a5', _⟩ := c40Available_spec hav
+            rw [hasMore_congr c1 c2 a2 a3 a5']; exact hm1
+          have hw : ∀ (cc : Ctx) (xs : List Nat), (cc.writeAll xs).hasMore = cc.hasMore := fun _ _ => rfl
+          simp only [bind, Except.bind, hr0, show ¬ (0 : Nat) = 2 by decide, show ¬ (0 : Nat) = 1 by decide,
+            if_false, and_false, if_true, hw, hm2, or_true, Except.ok.injEq] at h
+          subst h
+          exact ⟨by simp [Ctx.signal, Ctx.write, Ctx.writeAll, a4, hB1.cfg],
+                 by simp [Ctx.signal, Ctx.write, Ctx.writeAll, a5, hB1.skip]⟩
+      refine ⟨_, by rw [Acc.endSeg_trailer, pushAll_trailer], by rw [hmsg, hB1.msg], hcfg.1, hcfg.2,
+        by rw [hp]; exact hB1.lo, ?_, hne, Or.inl hI⟩
+      rw [hp]
+      have : c'.total = c1.total := by simp [Ctx.total, hmsg, hcfg.2, hB1.skip, hB1.msg]
+      rw [this]; exact hB1.hi
+    · exact c40HandleEOD_post (la := la) hbytes hL hB1 hav hc1 hc2 h
+
+end Gzx.DMHighLevel
